@@ -143,8 +143,69 @@ type input struct {
 	s     string
 }
 
+// compat rewrites s with compatibility forms that UTS#46 / NFKC mappings fold back to ASCII:
+// full-width letters, digits and asterisk, ideographic / full-width / half-width full stops,
+// superscript and circled digits, mathematical letters, and ignorable characters (soft hyphen,
+// zero-width joiner) inserted between runes. A normaliser that maps AFTER it has checked for
+// IP literals, local names and wildcards lets exactly such inputs through.
+func compat(rng *rand.Rand, s string) string {
+	var out []rune
+	changed := false
+	for _, c := range s {
+		x := rng.Intn(6)
+		switch {
+		case c == '.' && x < 3:
+			out = append(out, []rune{'。', '．', '｡'}[rng.Intn(3)])
+			changed = true
+		case c > ' ' && c < 0x7f && c != '.' && x < 2:
+			out = append(out, c+0xFEE0) // full-width form
+			changed = true
+		case c >= '1' && c <= '3' && x == 2:
+			out = append(out, []rune{'¹', '²', '³'}[c-'1'])
+			changed = true
+		case c >= '1' && c <= '9' && x == 3:
+			out = append(out, '①'+(c-'1'))
+			changed = true
+		case c >= 'a' && c <= 'z' && x == 3:
+			out = append(out, 0x1D41A+(c-'a')) // mathematical bold small
+			changed = true
+		default:
+			out = append(out, c)
+		}
+		if rng.Intn(12) == 0 {
+			out = append(out, []rune{0x00AD, 0x200D, 0x200C, 0xFE0F}[rng.Intn(4)])
+			changed = true
+		}
+	}
+	if !changed && len(out) > 0 {
+		i := rng.Intn(len(out))
+		if out[i] > ' ' && out[i] < 0x7f && out[i] != '.' {
+			out[i] += 0xFEE0
+		} else if out[i] == '.' {
+			out[i] = '。'
+		}
+	}
+	return string(out)
+}
+
 func gen(rng *rand.Rand) input {
-	switch rng.Intn(14) {
+	switch rng.Intn(16) {
+	case 14, 15:
+		// forbidden (and some allowed) names written with compatibility characters
+		var base string
+		switch rng.Intn(6) {
+		case 0, 1:
+			base = ipv4(rng)
+		case 2:
+			base = []string{"localhost", label(rng) + ".localhost", label(rng) + ".local", "machine.local"}[rng.Intn(4)]
+		case 3:
+			base = "*." + plainName(rng)
+		case 4:
+			base = ipv6(rng)
+		default:
+			base = plainName(rng)
+		}
+		return input{"compat-forms", compat(rng, base)}
 	case 0:
 		return input{"plain", plainName(rng)}
 	case 1:
@@ -236,7 +297,7 @@ func gen(rng *rand.Rand) input {
 
 func main() {
 	r := ev.Start("C33", "exploration")
-	r.SetRule("Normalize: seeded inputs of 14 classes (plain, mixed case, embedded unicode whitespace, wildcard labels, IPv4/IPv6 literals incl. bracketed/spaced, local names, IDN labels of several scripts and case forms, ASCII punctuation, dot anomalies, look-alike dots, punycode, numeric non-IP names, random runes); distinct by (class, accepted, output differs from input); GenerateCustomRecord: seeded token pairs (equal, one bit apart, prefix/extension, empty, random) x zone/delegation with and without trailing dot; distinct by pair kind")
+	r.SetRule("Normalize: seeded inputs of 15 classes (plain, mixed case, embedded unicode whitespace, wildcard labels, IPv4/IPv6 literals incl. bracketed/spaced, local names, IDN labels of several scripts and case forms, ASCII punctuation, dot anomalies, look-alike dots, punycode, numeric non-IP names, random runes, IP literals / local names / wildcards / plain names rewritten with compatibility characters: full-width, ideographic full stops, superscript and circled digits, mathematical letters, ignorable code points); distinct by (class, accepted, output differs from input); GenerateCustomRecord: seeded token pairs (equal, one bit apart, prefix/extension, empty, random) x zone/delegation with and without trailing dot; distinct by pair kind")
 	rng := r.Rand("c33")
 	n := r.Pick(20000, 1000000)
 	accepted := 0
